@@ -515,7 +515,12 @@ func (u *Unmarshaler) processFieldNotFromString(fieldType reflect.Type, value re
 	case valueKind == reflect.String && typeKind == reflect.Slice:
 		return u.fillSliceFromString(fieldType, value, mapValue)
 	case valueKind == reflect.String && derefedFieldType == durationType:
-		return fillDurationValue(fieldType.Kind(), value, mapValue.(string))
+		v, err := convertToString(mapValue, fullName)
+		if err != nil {
+			return err
+		}
+
+		return fillDurationValue(fieldType.Kind(), value, v)
 	default:
 		return u.processFieldPrimitive(fieldType, value, mapValue, opts, fullName)
 	}
@@ -746,7 +751,12 @@ func (u *Unmarshaler) processNamedFieldWithValue(fieldType reflect.Type, value r
 
 			options := opts.options()
 			if len(options) > 0 {
-				if !stringx.Contains(options, mapValue.(string)) {
+				mapValueStr, err := convertToString(mapValue, fullName)
+				if err != nil {
+					return err
+				}
+
+				if !stringx.Contains(options, mapValueStr) {
 					return fmt.Errorf(`错误：字段 "%s" 的值 "%s" 未定义在选项 "%v" 中`,
 						key, vp, options)
 				}
@@ -808,6 +818,16 @@ func (u *Unmarshaler) processNamedFieldWithoutValue(fieldType reflect.Type, valu
 	}
 
 	return nil
+}
+
+// convertToString 返回 val 的字符串值；json.Number 的 Kind 也是 String，但不能断言为 string。
+func convertToString(val any, fullName string) (string, error) {
+	v, ok := val.(string)
+	if !ok {
+		return "", fmt.Errorf("错误：字段 %s 需要字符串，实际类型为 %T", fullName, val)
+	}
+
+	return v, nil
 }
 
 func createValuer(v valuerWithParent, opts *fieldOptionsWithContext) valuerWithParent {
